@@ -85,8 +85,14 @@ def realise(lay, pattern):
                 a = {"vo": sgn * vnow, "eff": G.sig(rng.uniform(0.7, 0.95), 3), "iis": 1e-5}
                 last_switchable = n
             elif kind == "LinReg":
-                vnow = G.sig(vnow * rng.uniform(0.5, 0.9))
-                a = {"vo": sgn * vnow, "vdrop": 0.1, "iis": 2e-6}
+                if rng.random() < 0.3:
+                    # a regulator in DROPOUT (|vi| - vdrop < |vo|): its output follows the input - a live input all the same
+                    vd = G.sig(vnow * rng.uniform(0.02, 0.3))
+                    a = {"vo": sgn * G.sig(vnow * rng.uniform(0.95, 1.4)), "vdrop": vd, "iis": 2e-6}
+                    vnow = vnow - vd
+                else:
+                    vnow = G.sig(vnow * rng.uniform(0.5, 0.9))
+                    a = {"vo": sgn * vnow, "vdrop": 0.1, "iis": 2e-6}
                 last_switchable = n
             else:
                 a = {"rs": G.sig(rng.uniform(0.0, 0.1)), "iis": 3e-6}
